@@ -61,6 +61,10 @@ def run_maps(ctx, maps, t, res, stream, routes=ROUTES, meta=None):
         res.distribution["traces"] = res.distribution.get("traces", 0) + len(traces)
         if cls.get("X", 0) + cls.get("Y", 0) > 0:
             res.nontrivial += 1
+        if ar.quiet:
+            res.distribution["quiet(hypothesis of C01_snap_stage_identity)"] = res.distribution.get("quiet(hypothesis of C01_snap_stage_identity)", 0) + 1
+        else:
+            res.skipped["valid_but_not_quiet"] = res.skipped.get("valid_but_not_quiet", 0) + 1
         if not ar.wellformed:
             res.disagreements.append(Disagreement(stream, case, ar.raw[:300], None, None, "model produced a contact structure that is not WellFormed"))
             continue
